@@ -98,7 +98,7 @@ func FinishVoid(fns ...func()) {
 // ForEach 加工所有生成的元素，但并不输出。
 func ForEach(generate GenerateFunc, mapper ForEachFunc, opts ...Option) {
 	options := buildOptions(opts...)
-	panicChan := &onceChan{channel: make(chan any)}
+	panicChan := newOnceChan()
 	source := buildSource(generate, panicChan)
 	collector := make(chan any)
 	done := make(chan lang.PlaceholderType)
@@ -121,7 +121,13 @@ func ForEach(generate GenerateFunc, mapper ForEachFunc, opts ...Option) {
 			panic(v)
 		case _, ok := <-collector:
 			if !ok {
-				return
+				// 加工者结束前已记录的 panic 不能丢失
+				select {
+				case v := <-panicChan.channel:
+					panic(v)
+				default:
+					return
+				}
 			}
 		}
 	}
@@ -141,14 +147,14 @@ func MapReduceVoid(generate GenerateFunc, mapper MapperFunc, reducer VoidReducer
 
 // MapReduce 加工所有生成的元素，并聚合后输出。
 func MapReduce(generate GenerateFunc, mapper MapperFunc, reducer ReducerFunc, opts ...Option) (any, error) {
-	panicChan := &onceChan{channel: make(chan any)}
+	panicChan := newOnceChan()
 	source := buildSource(generate, panicChan)
 	return mapReduceWithPanicChan(source, panicChan, mapper, reducer, opts...)
 }
 
 // MapReduceChan 加工所有给定的源数据，并聚合输出。
 func MapReduceChan(source <-chan any, mapper MapperFunc, reducer ReducerFunc, opts ...Option) (any, error) {
-	panicChan := &onceChan{channel: make(chan any)}
+	panicChan := newOnceChan()
 	return mapReduceWithPanicChan(source, panicChan, mapper, reducer, opts...)
 }
 
@@ -243,6 +249,14 @@ func mapReduceWithPanicChan(source <-chan any, panicChan *onceChan, mapper Mappe
 		drain(output)
 		panic(v)
 	case v, ok := <-output:
+		// 输出产生前已记录的 panic 优先于输出
+		select {
+		case p := <-panicChan.channel:
+			drain(output)
+			panic(p)
+		default:
+		}
+
 		if err := retErr.Load(); err != nil {
 			return nil, err
 		} else if ok {
@@ -345,6 +359,12 @@ func buildSource(generate GenerateFunc, panicChan *onceChan) chan any {
 type onceChan struct {
 	channel chan any
 	wrote   int32
+}
+
+// newOnceChan 返回带一个缓冲位的 onceChan：发生 panic 的协程写入后即可结束，
+// 不必等待调用方读取（调用方可能已经返回，无缓冲时该协程会永久阻塞）。
+func newOnceChan() *onceChan {
+	return &onceChan{channel: make(chan any, 1)}
 }
 
 func (c *onceChan) write(v any) {
